@@ -37,7 +37,7 @@ package ringbuffer
 //@   ensures[C14.new.empty] result.len == 0
 //@   ensures[C14.new.fresh] fresh(result) && result != nil
 
-//@ func (*RingBuffer).Push(item)
+//@ func (rb *RingBuffer).Push(item)
 //@   props C14 C01 C03
 //@   requires rb != nil
 //@   modifies rb.content, rb.len, rb.content.*, elements(rb.content.items)
@@ -54,14 +54,14 @@ package ringbuffer
 //@     modifies elements(newBuff)
 //@     decreases rb.content.mod - i
 
-//@ func (*RingBuffer).Len()
+//@ func (rb *RingBuffer).Len()
 //@   props C14 C03
 //@   requires rb != nil
 //@   modifies
 //@   ensures[C14.len.nonneg] result >= 0
 //@   ensures[C14.len.value] result == rb.len
 
-//@ func (*RingBuffer).Pop() (item, ok)
+//@ func (rb *RingBuffer).Pop() (item, ok)
 //@   props C14
 //@   requires rb != nil
 //@   modifies rb.len, rb.content.*, elements(rb.content.items)
@@ -70,7 +70,7 @@ package ringbuffer
 //@   ensures[C14.pop.len] old(rb.len) > 0 ==> rb.len == old(rb.len) - 1
 //@   ensures[C14.pop.rest] old(rb.len) > 0 ==> forall(k, 0 <= k && k < rb.len ==> viewat(rb, k) == old(viewat(rb, k + 1)))
 
-//@ func (*RingBuffer).PopN(n) (items, ok)
+//@ func (rb *RingBuffer).PopN(n) (items, ok)
 //@   props C14 C01 C03
 //@   requires rb != nil
 //@   modifies rb.len, rb.content.*, elements(rb.content.items)
